@@ -173,3 +173,52 @@ def guards_of(prog, body, bb, tb=None):
             else:
                 out.append((cond, v))
     return out
+
+
+def fmt_text(op_json):
+    """Literal text of a format template operand: either a plain &str constant or the byte-coded template of
+    core::fmt::Arguments::new (length-prefixed literal pieces interleaved with placeholder opcodes >= 0x80)."""
+    if "const" not in op_json:
+        return None
+    v = op_json["const"].get("val")
+    while isinstance(v, dict) and "$ref" in v and len(v) == 1:
+        v = v["$ref"]
+    if isinstance(v, dict) and "$str" in v:
+        return v["$str"]
+    if isinstance(v, list) and all(isinstance(x, int) for x in v):
+        out = []
+        i = 0
+        while i < len(v):
+            n = v[i]
+            if n == 0:
+                break
+            if n < 0x80:
+                out.append(bytes(v[i + 1:i + 1 + n]).decode("utf-8", "replace"))
+                i += 1 + n
+            else:
+                out.append("{}")
+                i += 1
+        return "".join(out)
+    return None
+
+
+def printed_texts(prog, body):
+    """[(bb, line, stream, text)] for every println!/eprintln!/print! in the body (text with {} placeholders)."""
+    out = []
+    tb = None
+    for bb, t in live_calls(body):
+        n = callee_name(t)
+        if n in ("std::io::stdio::_print", "std::io::stdio::_eprint"):
+            # the Arguments value is built by Arguments::new / from_str in a predecessor chain: find its template constant
+            tb = tb or TermBuilder(prog, body)
+            a = tb.operand(t["args"][0])
+            text = None
+            for x in walk(a):
+                if x[0] == "const":
+                    from terms import thaw
+                    v = thaw(x[2])
+                    txt = fmt_text({"const": {"val": v}})
+                    if txt is not None and (text is None or len(txt) > len(text)):
+                        text = txt
+            out.append((bb, t["line"], "stdout" if n.endswith("_print") else "stderr", text))
+    return out
